@@ -106,6 +106,7 @@ class Events(Monitor):
         self.target = op_target(world, op)
         self.dir = sgn(self.target - self.start_t) if np.isfinite(self.target) else sgn(world.system.dt)
         self.rolled_back = False
+        self.ic_seen = len(world.icalls)
         self.steps = []         # (row_a, row_b, [event indices appended during this step])
 
     # ---------------------------------------------------------------- in loop
@@ -172,7 +173,62 @@ class Events(Monitor):
                         if g1 * g2 < 0 and sense != 0 and sense != sgn(ev.direction):
                             world.violate("C07", "C07.direction_compatible", "event %d requests direction %d but g goes %.3e -> %.3e across t=%r along the direction of integration"
                                           % (ev.idx, ev.direction, g1, g2, _f(te)))
-        if "C08" in self.props:
+        rolled = any(c.get("nested", 1) >= 2 for c in world.icalls[getattr(self, "ic_seen", 0):])
+        self.ic_seen = len(world.icalls)
+        if "C08" in self.props and (multi or rolled) and b_row > a_row:
+            # the step that was cut at a terminal event: its sub-steps (taken only to land on the event) are one accepted step
+            # [t_a, t_stop].  Detection ran on the attempted (discarded) step [t_a, t_b], and the stop row is on the event surface
+            # only to truncation level (C09), so a missing report is classified: `rollback_artefact` when the attempted step showed
+            # no sign change of that function, or the crossing is within the stop row's own distance from the surface
+            att = None
+            for c in reversed(world.icalls):
+                if c["depth"] == 0 and c.get("nested") == 1 and c["ok"] and bitwise_equal(np.asarray(c["t0"]), np.asarray(ta)):
+                    att = c
+                    break
+            term = [e_ for e_ in events[self.ev_seen:] if e_.event.is_terminal]
+            for ev in evs:
+                gs = [_f(g_math(world, ev, t[r], y[r])) for r in range(a_row, b_row + 1)]
+                if not any(gs[q] * gs[q + 1] < 0 for q in range(len(gs) - 1)):
+                    continue
+                q0 = [q for q in range(len(gs) - 1) if gs[q] * gs[q + 1] < 0][0]
+                up = gs[q0] < 0 < gs[q0 + 1]
+                if (ev.direction > 0 and not up) or (ev.direction < 0 and up):
+                    continue
+                world.probe("sign_change_steps")
+                world.probe("sign_change_in_rollback_region")
+                found = any((e_.event is ev) and (lo - tol_t <= e_.t <= hi + tol_t) for e_ in events)
+                if found:
+                    continue
+                facts = {"gmin_rel": min(abs(gs[q0]), abs(gs[q0 + 1])) / (abs(float(ev.scale)) * (abs(float(ev.c)) + 1.0))}
+                artefact = False
+                if att is not None and att.get("dState") is not None:
+                    # the only trajectory the library examines is the Hermite interpolant of the attempted step, up to the stop
+                    tb_att = att["t0"] + att["dTime"]
+                    yb_att = att["y0"] + att["dState"]
+                    fa_ = np.asarray(world.f_math(ta, y[a_row]), dtype=dtype)
+                    fb_ = np.asarray(world.f_math(tb_att, yb_att), dtype=dtype)
+                    ref_att = RefHermite(ta, tb_att, y[a_row], yb_att, fa_, fb_)
+
+                    def g_int(tt):
+                        tt = np.asarray(tt, dtype=dtype)
+                        if ev.kind == "dstate":
+                            return _f(ev.g(tt, ref_att(tt), ref_att.grad(tt)))
+                        return _f(ev.g(tt, ref_att(tt)))
+                    g0_, g1_ = g_int(ta), g_int(tb)
+                    if not (g0_ * g_int(tb_att) < 0):
+                        artefact = True          # no sign change between the ends of the attempted step: nothing brackets a root there
+                    elif not (g0_ * g1_ < 0):
+                        artefact = True          # no sign change along the examined trajectory between the start of the step and the stop
+                    else:
+                        # a crossing within the root finder's resolution of the stop may be located on either side of it
+                        slope_ = abs(g1_ - g0_) / max(abs(_f(tb) - _f(ta)), 1e-300)
+                        if abs(g1_) <= slope_ * 64 * eps * max(1.0, abs(_f(tb))) + 64 * eps * abs(float(ev.scale)) * (abs(float(ev.c)) + 1.0):
+                            artefact = True
+                facts["rollback_artefact"] = artefact
+                world.violate("C08", "C08.crossing_reported", "event %d (%s, scale %g, direction %d) changes sign over the step cut at a terminal event [%r,%r] (g: %.3e -> %.3e in sub-step %d of %d) but no event is reported there%s"
+                              % (ev.idx, ev.kind, ev.scale, ev.direction, _f(ta), _f(tb), gs[q0], gs[q0 + 1], q0 + 1, len(gs) - 1,
+                                 " [sub-steps are not monitored: artefact of the roll-back]" if artefact else ""), facts=facts)
+        elif "C08" in self.props:
             for r in range(a_row, b_row):
                 t1, t2 = t[r], t[r + 1]
                 for ev in evs:
